@@ -201,7 +201,7 @@ PROPS["C07"] = dict(
     level="exploration",
     rule=("(a) one real node, scripted peers: 1-18 steps of claims (alive/suspect/dead/left and push/pull rows at incarnation held-1..held+2, same or other "
           "address and metadata, any accuser, bursts of 2-4 claims in one packet), sleeps across the suspicion, reclaim and reaping deadlines (answering and "
-          "silent subjects), local UpdateNode and a final Leave; (b) 3-6 real nodes under loss up to 50%, delay, cut streams, crashes, restarts, leaves and "
+          "silent subjects), local UpdateNode and a Leave at the end or in the middle (the node keeps running); one claim in nine is about the node itself, also after it has left; (b) 3-6 real nodes under loss up to 50%, delay, cut streams, crashes, restarts, leaves and "
           "updates. At every quiescent point (after each step / every 500 virtual ms, synctest.Wait returned) the oracle replays the node's event log: callbacks "
           "never overlapped, per member join (update)* leave, and the replayed set equals Members() by name with the metadata and address of the last "
           "join/update event. The same oracle also runs at the end of every C03/C04/C05 cluster case. non-trivial = history with a leave followed by a re-join, "
@@ -214,6 +214,7 @@ PROPS["C07"] = dict(
              quick=dict(shards=8, checks=40, timeout=900),
              thorough=dict(shards=8, checks=1200, timeout=3400)),
     ],
+    required_labels=dict(both=["TestEventLog/claim-about-self", "TestEventLog/claim-about-self-after-leave"]),
     assumptions=PUPPET_ASSUMPTIONS + ["the event delegate cannot call Members() itself (it runs under the node lock), so faithfulness is checked at quiescent points"],
 )
 
@@ -228,13 +229,17 @@ PROPS["C06"] = dict(
           "around every analytic deadline (min, max, the timeout after c=0..k confirmations) or uniformly. Oracle: exact-arithmetic model of k, min, max and "
           "the logarithmic schedule; the leave event for the subject must occur within 1 ms of the model's instant (timer expiry, confirmation driving the timer "
           "to zero, foreign death, leave) or never (refuted), and a timer death lies in [min, max] after the start of the suspicion that caused it. "
-          "non-trivial = at least one confirmation processed while a suspicion is pending; distinct = distinct plans"),
+          "Wall-clock schedule: the log writer, on the line announcing the expiry, delivers alive{subject, incarnation+1, other metadata} and waits until the node has delivered the update event; "
+          "a refutation accepted while the expiry is being carried out keeps the member (no leave event, still listed). "
+          "non-trivial = at least one confirmation processed while a suspicion is pending / a refutation accepted inside the expiry; distinct = distinct plans"),
     tests=[
         dict(name="sched", run="^TestSuspicionSchedule$",
-             quick=dict(shards=16, checks=250, timeout=600),
-             thorough=dict(shards=16, checks=8000, timeout=3000)),
+             quick=dict(shards=14, checks=290, timeout=600),
+             thorough=dict(shards=14, checks=9000, timeout=3000)),
+        dict(name="window", run="^TestRefutationInsideExpiry$", quick=dict(shards=2, checks=12, timeout=600), thorough=dict(shards=4, checks=400, timeout=3000)),
     ],
     assumptions=PUPPET_ASSUMPTIONS + [
+        "the wall-clock test recognises the expiry by the node's log line ('... timeout reached') and delivers the refutation from inside the log writer; without that line, or when the claim is not accepted inside the window, nothing is asserted (counted under labels)",
         "messages are delivered 200us after sending and processed in zero virtual time; script instants are offset by 0.3-0.5 ms so that no arrival ties with a deadline",
         "own-evidence plans that contain a refutation are only checked up to it (the silent subject is suspected again by the node itself)",
     ],
@@ -542,11 +547,13 @@ PROPS["C09"] = dict(
           "are unchanged and Join returns an error with 0 successes; when Join reports success the joiner lists the host and every reported-alive row that "
           "passes its own filters; a dead/suspect row about a held member never removes it before the minimum suspicion timeout and a refutation keeps it; a held member may have been upgraded (re-announced with another version vector) before the exchange; every merge is followed by an honest exchange from a peer speaking the node's own versions, which must be admitted. "
           "mutuality: a real joiner and a real host with 0-4 members: at Join's return the joiner lists everything the host listed, and with the network "
-          "frozen the host lists the joiner once its handler finished. non-trivial = cut strictly inside the message / rejected non-empty list / hearsay / "
+          "frozen the host lists the joiner once its handler finished. Refusal at the cap on concurrent exchanges (0-300 stalled inbound push/pulls): the cap holds, and once the stalled ones have timed out an honest exchange is served again. non-trivial = cut strictly inside the message / rejected non-empty list / hearsay / "
           "successful join; distinct = distinct plans"),
     tests=[
         dict(name="aon", run="^TestAllOrNothing$", quick=dict(shards=12, checks=250, timeout=600), thorough=dict(shards=12, checks=8000, timeout=3400)),
         dict(name="mutual", run="^TestMutualJoin$", quick=dict(shards=4, checks=60, timeout=600), thorough=dict(shards=4, checks=2000, timeout=3000)),
+        # exchanges refused at the concurrency cap must leave nothing behind either: once the pending ones are gone an honest exchange is served again
+        dict(name="cap", pkg="./props/c13", run="^TestConcurrentPushPullCap$", quick=dict(shards=1, checks=40, timeout=600), thorough=dict(shards=2, checks=600, timeout=3000)),
     ],
     required_labels=dict(both=["TestAllOrNothing/hearsay", "TestAllOrNothing/rejected:stream cut", "TestAllOrNothing/rejected:vetoed by the merge delegate",
                                "TestAllOrNothing/rejected:incompatible versions", "TestAllOrNothing/join-ok", "TestAllOrNothing/merged"]),
